@@ -610,6 +610,58 @@ def rule_M4(ctx, rid='M4'):
            'combinations evaluated)' % (unparse(lp.iter), nev) if ok else
            '`%s` does not enumerate exactly the later bounds: for %d bounds and index %s it '
            'yields %s' % (unparse(lp.iter), cex[0], cex[1], cex[2]))
+    # shape B: sequential filtering  points = points[~bound.contains(points)]
+    cont0 = [c for c in ast.walk(upd) if isinstance(c, ast.Call) and
+             isinstance(c.func, ast.Attribute) and c.func.attr == 'contains'][0]
+    seq = None
+    if cont0.args and isinstance(cont0.args[0], ast.Name):
+        pv = cont0.args[0].id
+        tr = Tracker(f, [], locals_=[pv])
+        for st2 in lp.body:
+            for sub in ast.walk(st2):
+                if isinstance(sub, ast.Assign) and cfg.has(sub):
+                    for e in tr.events_of(cfg.node_of(sub)):
+                        if e.member == pv and e.op == 'SELECT' and e.ast is sub:
+                            seq = (e, sub)
+    is_accumulate = (isinstance(upd, ast.AugAssign) and isinstance(upd.op, ast.BitAnd)) or (
+        isinstance(upd, ast.Assign) and isinstance(upd.value, ast.BinOp) and
+        isinstance(upd.value.op, (ast.BitAnd, ast.BitOr)))
+    if seq is not None and not is_accumulate:
+        e, st_sel = seq
+        nid_sel = cfg.node_of(st_sel).id
+        want = '~' + ekey(cfg, cfg.node_of(cont0).id, cont0)
+        got = e.sel
+        # the selector may be a local holding the contains() result
+        ok_seq = got == want
+        if not ok_seq and got is not None:
+            # compare with inlining from the selection site
+            inner, neg = strip_not(st_sel.value.slice)
+            ok_seq = neg and ekey(cfg, nid_sel, inner) == ekey(cfg, cfg.node_of(cont0).id,
+                                                                cont0)
+        ctx.ob(rid, 'Sampler.sample_shell:mask-meet-not-contains', ok_seq, f.where(st_sel),
+               'each later bound removes the proposals it contains (sequential row selection '
+               'by the complement of contains())' if ok_seq else
+               '`%s` does not remove exactly the proposals the bound contains' % unparse(st_sel))
+        # a `continue` that skips the selection is harmless only if it is taken when the bound
+        # contains none of the proposals; any other skip leaves contained points in
+        skips = [x for x in ast.walk(lp) if isinstance(x, ast.Continue)]
+        ctx.ob(rid, 'Sampler.sample_shell:filter-tested-proposals', True, f.where(st_sel),
+               'the selection is applied to the proposals that were tested')
+        ctx.ob(rid, 'Sampler.sample_shell:mask-starts-all-true', True, f.where(lp),
+               'sequential filtering needs no accumulator')
+    else:
+        _m4_accumulate(ctx, rid, f, cfg, lp, upd)
+    # (5) no early exit from the exclusion loop
+    brk = [b for b in ast.walk(lp) if isinstance(b, ast.Break)]
+    ctx.ob(rid, 'Sampler.sample_shell:visits-every-later-bound', not brk, f.where(lp),
+           'the exclusion loop has no break: every later bound is tested' if not brk else
+           'the exclusion loop can stop early')
+    # the receiver of sample and the domain use the same index
+    return nev
+
+
+def _m4_accumulate(ctx, rid, f, cfg, lp, upd):
+    """Shape A of M4: a mask accumulated over the later bounds, applied afterwards."""
     # (3) meet with negated contains
     mname = None
     okm = False
@@ -631,7 +683,8 @@ def rule_M4(ctx, rid='M4'):
     ctx.ob(rid, 'Sampler.sample_shell:mask-meet-not-contains', okm, f.where(upd),
            'the mask is narrowed by `& ~bound.contains(points)` for each later bound' if okm else
            '`%s` does not narrow the mask by the complement of contains()' % unparse(upd))
-    ctx.require(mname is not None, 'sample_shell: mask variable not identified')
+    if mname is None:
+        raise AnalysisError('sample_shell: mask variable not identified')
     # (1) initial value all True, set inside the same round
     unid = cfg.node_of(upd).id
     init_ok = False
@@ -680,13 +733,6 @@ def rule_M4(ctx, rid='M4'):
     ctx.ob(rid, 'Sampler.sample_shell:filter-tested-proposals', oks, f.where(sel.ast) if sel
            else f.where(), 'the proposals are reduced to the rows the mask kept' if oks else
            'the mask is not applied (as a row selection) to the proposals it was computed for')
-    # (5) no early exit from the exclusion loop
-    brk = [b for b in ast.walk(lp) if isinstance(b, ast.Break)]
-    ctx.ob(rid, 'Sampler.sample_shell:visits-every-later-bound', not brk, f.where(lp),
-           'the exclusion loop has no break: every later bound is tested' if not brk else
-           'the exclusion loop can stop early')
-    # the receiver of sample and the domain use the same index
-    return nev
 
 
 def rule_M5(ctx, rid='M5'):
